@@ -317,8 +317,8 @@ hwloc__type_match(const char *string,
       else
 	return s;
     }
-    if (*s != *t && *s != *t + 'A' - 'a') {
-      /* string is different */
+    if (!*t || (*s != *t && *s != *t + 'A' - 'a')) {
+      /* string is different (or longer than type, don't compare beyond the end of type) */
       if ((*s >= 'a' && *s <= 'z') || (*s >= 'A' && *s <= 'Z') || *s == '-')
 	/* valid character that doesn't match */
 	return NULL;
